@@ -134,6 +134,47 @@ CLAIMED["C07"] = dict(
          "-1e-8 lambda_max in float64 (differences: relative to the operands).",
     technique="TLA+ growth machine with exact rational PSD checks in TLC; growth histories and a kernel x geometry lattice replayed with float64 eigenvalue checks")
 
+CLAIMED["C10"] = dict(
+    category="model_checking",
+    text="MVN.tla states 'indexing = marginal of the selected components' as invariants over every index expression of the enumerated families (ints incl. out of "
+         "range, slices with start/stop in -(n+2)..n+2 or None and steps None/1/2/3, one ellipsis anywhere, 1-d index tensors incl. negative entries, over-long "
+         "indices, chains d[i][j]) on event sizes 1..3 and batch ranks 0..2, against a branch-by-branch transcription of __getitem__; every case is replayed on "
+         "real distributions with unique-integer covariances in four representations (dense, lazy, diag, root) and decoded exactly. MVNOps.tla lets TLC check the "
+         "expand/repeat shape logic of log_prob against plain broadcasting and the arithmetic / expand / unsqueeze / add_jitter maps in exact rationals; every cell "
+         "(broadcast pattern x representation x fast/Cholesky path x operation) is replayed in float64 against a reference log density, closed-form KL, R R^T = "
+         "covariance, diag / sqrt / +-2 sigma at 1e-7.",
+    design_ref="DESIGN.md section 6 (C10)",
+    note="PyIndex.tla is validated against torch indexing on every case. Batch elements are independent. 'Sample moments converge' is statistical and not decided. "
+         "Numeric instances are seeded and well conditioned; sizes far below max_cholesky_size.",
+    technique="TLC exact-function specs (index algebra, shape algebra, rational maps); exhaustive case replay with label decoding; float64 reference comparison")
+CLAIMED["C13"] = dict(
+    category="other",
+    text="Quadrature.tla: TLC computes the exact rational integral of every integer polynomial up to degree 10 against N(m, v) on a 14-point (m, sqrt v) lattice, "
+         "checks the moment recurrence against the closed form, proves for num_locs <= 3 (nodes are square roots of rationals) that the code-shaped rule "
+         "(sqrt(2v) x_i + m, weights / sqrt(pi), sum over the location axis) is exact through degree 2n-1 and misses by exactly s^(2n) n! at degree 2n, and "
+         "enumerates the shape/index map of forward and the 720 cells likelihood x method x setting-at-construction x setting-at-call x batch shape. Every case is "
+         "replayed into the real GaussHermiteQuadrature1D / likelihoods against the exact value (Fractions extend to 40 nodes); the rest is a float64-vs-mpmath "
+         "reference comparison: truncation error shrinking over 10/20/40 nodes, Bernoulli marginal Phi(m / sqrt(1+v)), conditional parameters, log_normal_cdf "
+         "value (2e-3 / rounding for z >= -1) and derivative.",
+    design_ref="DESIGN.md section 6 (C13), section 8",
+    note="Level other: model checking decides polynomial exactness and the discrete structure; the accuracy of log_normal_cdf and quadrature truncation on "
+         "non-polynomial integrands are reference comparisons on grids (mpmath, 30 digits). Monte-Carlo paths: shape and finiteness only. BetaLikelihood / "
+         "LaplaceLikelihood parameters pinned as implemented (docstring discrepancies recorded in the evidence).",
+    technique="TLA+/TLC exact rational Gaussian moments + shape and lattice enumeration replayed into the code; mpmath reference comparison")
+CLAIMED["C19"] = dict(
+    category="other",
+    text="Grad.tla (EXTENDS Kernels) enumerates the case lattice of the hand-written backward passes (nu x coincident points x batch x upstream gradient for the "
+         "RBF/Matern covariance Functions; fast vs generic branch of every kernel cell; the LogNormalCDF forward/backward masks on a rational grid; natural and "
+         "tril-natural parameterisations; CIQ terms; prediction gradients) and decides the rational parts exactly: the masks partition the line, the natural -> "
+         "(mu, Sigma) map and the delivered gradient equal the gradient w.r.t. the expectation parameters, (dk/dl)/k of RBF and Matern as rational functions. The "
+         "replay compares the Functions with autograd of the same forward in plain torch (1e-7, incl. r = 0), fast and generic branch values and hyperparameter "
+         "gradients (1e-9), the log_normal_cdf backward with finite differences of its forward and with phi/Phi, gradients reaching natural_vec / natural_mat with "
+         "autograd in the (mu, Sigma + mu mu^T) parameterisation, and prediction gradients w.r.t. test inputs with finite differences (1e-6).",
+    design_ref="DESIGN.md section 6 (C05, C19)",
+    note="Level other: gradients are sampled on seeded inputs; TLA+ carries the case analysis and the exactly decidable maps. log_normal_cdf for -2.5 <= z < -1 is "
+         "compared at 1e-2 (forward derivative) / 2e-3 (phi/Phi); _NgdInterpTerms at 1e-4 (linear_cg accuracy).",
+    technique="TLA+ branch lattice + exact rational gradient maps (TLC); replay against autograd / finite differences")
+
 PENDING = "check not built yet (build in progress; see DESIGN.md section 11)"
 NOT_APPLICABLE = {}
 
